@@ -190,6 +190,9 @@ class ParamResolver:
             exponent = self.value_of(value.args[1], recursive)
             # Casts because numpy can handle expressions (by delegating to __pow__), but does
             # not have signature that will support this.
+            if isinstance(base, sympy.Basic) or isinstance(exponent, sympy.Basic):
+                # Only partially resolved: keep the power symbolic (numpy cannot handle it).
+                return base**exponent
             if isinstance(base, numbers.Number):
                 return np.float_power(cast(complex, base), cast(complex, exponent))
             return np.power(cast(complex, base), cast(complex, exponent))
